@@ -549,7 +549,9 @@ Lemma aas5_logstep c op len s : logstep c s (aas5 c op len s).
 Proof.
   unfold aas5. cbv zeta.
   destruct ((op =? c_continuationFrame) || ((op =? c_TextMessage) || (op =? c_BinaryMessage))).
-  - destruct (2^63 <=? rlen s + len); [apply logstep_quiet; repeat split|].
+  - destruct (2^63 <=? rlen s + len).
+    { unfold send. change (closesent (s <| rlen := rlen s + len |>)) with (closesent s).
+      destruct (closesent s) eqn:Ecs; apply logstep_quiet; rsimpl; rewrite ?Ecs; repeat split; reflexivity. }
     destruct ((0 <? rlimit (s <| rlen := rlen s + len |>)) && (rlimit (s <| rlen := rlen s + len |>) <? rlen s + len)).
     + apply logstep_quiet. apply (logs_eq_trans _ (s <| rlen := rlen s + len |>)); [repeat split|apply send_logs].
     + apply logstep_quiet; repeat split.
@@ -579,7 +581,9 @@ Proof.
     apply (logstep_same c s1); [exact H|apply aas4_logstep].
   - destruct (rd 8 s) as [[p e] s1] eqn:E. pose proof (rd_logs _ _ _ _ _ E) as H.
     destruct e as [e|]; [apply logstep_quiet; exact H|].
-    destruct (2^63 <=? be_dec p); [apply logstep_quiet; exact H|].
+    destruct (2^63 <=? be_dec p).
+    { unfold send. destruct (closesent s1) eqn:Ecs; apply logstep_quiet; [exact H|].
+      destruct H as (H1 & H2 & H3 & H4). unfold logs_eq. rsimpl. repeat split; assumption. }
     apply (logstep_same c s1); [exact H|apply aas4_logstep].
   - apply aas4_logstep.
 Qed.
@@ -636,7 +640,7 @@ Lemma aas5_oof c op len s : outoffuel (snd (aas5 c op len s)) = outoffuel s.
 Proof.
   unfold aas5. cbv zeta.
   destruct ((op =? c_continuationFrame) || ((op =? c_TextMessage) || (op =? c_BinaryMessage))).
-  - destruct (2^63 <=? rlen s + len); [reflexivity|].
+  - destruct (2^63 <=? rlen s + len); [cbn [snd]; rewrite send_oof; reflexivity|].
     destruct ((0 <? rlimit (s <| rlen := rlen s + len |>)) && (rlimit (s <| rlen := rlen s + len |>) <? rlen s + len));
       cbn [snd]; rewrite ?send_oof; reflexivity.
   - destruct (if 0 <? len then rd (N.to_nat len) s else ([], None, s)) as [[pl e] s1] eqn:E.
@@ -659,7 +663,7 @@ Proof.
   - destruct (rd 2 s) as [[p e] s1] eqn:E. pose proof (rd_oof _ _ _ _ _ E) as H.
     destruct e as [e|]; [exact H|]. rewrite aas4_oof. exact H.
   - destruct (rd 8 s) as [[p e] s1] eqn:E. pose proof (rd_oof _ _ _ _ _ E) as H.
-    destruct e as [e|]; [exact H|]. destruct (2^63 <=? be_dec p); [exact H|]. rewrite aas4_oof. exact H.
+    destruct e as [e|]; [exact H|]. destruct (2^63 <=? be_dec p); [cbn [snd]; rewrite send_oof; exact H|]. rewrite aas4_oof. exact H.
   - apply aas4_oof.
 Qed.
 Lemma aas2_oof c b0 b1 s : outoffuel (snd (aas2 c b0 b1 s)) = outoffuel s.
